@@ -286,6 +286,7 @@ pub struct Sim<'w> {
     pub hot_loop: bool,
     pub budget_exhausted: bool,
     pub last_fetch_ms: Option<i64>,
+    pub deferred: Vec<Fail>,
     pub evals: u64,
 }
 
@@ -322,6 +323,7 @@ impl<'w> Sim<'w> {
             hot_loop: false,
             budget_exhausted: false,
             last_fetch_ms: None,
+            deferred: vec![],
             evals: 0,
         })
     }
@@ -475,10 +477,12 @@ impl<'w> Sim<'w> {
         ensure!(cached <= self.cfg.max_cached, "cache-exceeds-max-cached-paths",
             "{cached} cached paths, max_cached_paths_per_pair = {}", self.cfg.max_cached);
         let (cache, fifo) = self.drv.issue_memory();
-        ensure!(cache <= self.cfg.issue_cache, "issue-cache-exceeds-size",
-            "issue cache holds {cache} entries, issue_cache_size = {} (fifo {fifo})", self.cfg.issue_cache);
-        ensure!(fifo <= 4 * self.cfg.issue_cache + 4, "issue-fifo-unbounded",
-            "issue FIFO holds {fifo} entries while issue_cache_size = {} (cache {cache})", self.cfg.issue_cache);
+        if cache > self.cfg.issue_cache {
+            self.defer(Fail::new("issue-cache-exceeds-size", format!("issue cache holds {cache} entries, issue_cache_size = {} (fifo {fifo})", self.cfg.issue_cache)));
+        }
+        if fifo > 4 * self.cfg.issue_cache + 4 {
+            self.defer(Fail::new("issue-fifo-unbounded", format!("issue FIFO holds {fifo} entries while issue_cache_size = {} (cache {cache})", self.cfg.issue_cache)));
+        }
         Ok(())
     }
 
@@ -524,9 +528,28 @@ impl<'w> Sim<'w> {
         } else {
             "no-path-though-valid-known"
         };
-        Err(Fail::new(sig, format!(
+        self.defer(Fail::new(sig, format!(
             "after maintenance with fetch at {now_ms} ms the active slot is empty although valid policy-conform paths are known: fresh {:?}, retained {:?} (threshold {} ms, max_cached {})",
-            fresh_adm, known, self.cfg.threshold_ms, self.cfg.max_cached)))
+            fresh_adm, known, self.cfg.threshold_ms, self.cfg.max_cached)));
+        Ok(())
+    }
+
+    /// Record a violation that leaves harness and manager in step, and go on with the history:
+    /// a later violation of another kind is then still seen (see `take_deferred`).
+    fn defer(&mut self, f: Fail) {
+        if !self.deferred.iter().any(|d| d.sig == f.sig) {
+            self.deferred.push(f);
+        }
+    }
+
+    /// The deferred violation to report: one that is not an open known finding first.
+    pub fn take_deferred(&mut self) -> Option<Fail> {
+        let known = crate::known_open(match self.focus {
+            Focus::C05 => "C05",
+            Focus::C06 => "C06",
+        });
+        let pos = self.deferred.iter().position(|d| !known.iter().any(|k| crate::sig_matches(k, &d.sig))).or(if self.deferred.is_empty() { None } else { Some(0) })?;
+        Some(self.deferred.swap_remove(pos))
     }
 
     /// Advance the clock to `target`, running maintenance at every due instant on the way.
@@ -603,7 +626,12 @@ impl<'w> Sim<'w> {
     pub fn report(&mut self, s: &IssueSpec) -> CheckResult {
         let (_, issue) = resolve_issue(self.w, s);
         let now = self.now;
-        no_panic("report_path_issue/handle_issue_rx", || self.drv.report_issue(now, now, issue))?;
+        no_panic("report_path_issue/handle_issue_rx", || self.drv.report_issue(now, now, issue)).map_err(|mut f| {
+            if f.sig.contains("Bad cache: issue ID not found") {
+                f.sig = "panic:issue-fifo-entry-without-cache-entry".into();
+            }
+            f
+        })?;
         self.issue_reports += 1;
         if self.drv.exited().is_some() {
             self.ended = true;
@@ -638,9 +666,12 @@ impl<'w> Sim<'w> {
                         (Focus::C05, false) => "provenance:expired-path-returned:between-fetch-ticks",
                         (Focus::C05, true) => "provenance:expired-path-returned:survived-a-fetch-tick",
                     };
-                    return Err(Fail::new(sig, format!(
+                    let f = Fail::new(sig, format!(
                         "send at {now_ms} ms gets the path of route {:?} whose hop fields expired at {} ms (next maintenance due in {:?}, failed_attempts {})",
-                        seen.route, seen.expiry_ms, self.drv.next_maintain(now), self.drv.failed_attempts())));
+                        seen.route, seen.expiry_ms, self.drv.next_maintain(now), self.drv.failed_attempts()));
+                    self.defer(f);
+                    // the read APIs would hit the manager's debug assertion: skip them
+                    return Ok(());
                 }
                 let cp = no_panic("MultiPathManager::cached_path", || self.drv.cached_path(now))?;
                 let pw = no_panic("PathManager::path_wait", || self.drv.path_wait(now))?;
@@ -730,14 +761,14 @@ impl<'w> Sim<'w> {
 
 /// Runs a whole history; the first maintenance tick happens at time 0 like the `manage()` task's
 /// initial `fetch_and_update` (next_refetch = creation time).
-pub fn run(w: &World, case: &Case, focus: Focus, obs: &mut Obs) -> Result<SimSummary, Fail> {
+pub fn run(w: &World, case: &Case, focus: Focus, obs: &mut Obs) -> Result<(SimSummary, Option<Fail>), Fail> {
     if !case.cfg.valid() {
         obs.label("config-invalid");
         // validate must reject exactly these
         let strategy = policy::install(&case.policies).map_err(|e| Fail::new("harness:policy-not-installable", e))?;
         let r = no_panic("PathSetDriver::new", || PathSetDriver::new(case.cfg.to_verif(), strategy, src_ia(), dst_ia(), world::at(0)))?;
         ensure!(r.is_err(), "invalid-config-accepted", "config {:?} violates the documented inequalities but was accepted", case.cfg);
-        return Ok(SimSummary::default());
+        return Ok((SimSummary::default(), None));
     }
     let mut sim = Sim::new(w, case, focus)?;
     for op in &case.ops {
@@ -747,7 +778,8 @@ pub fn run(w: &World, case: &Case, focus: Focus, obs: &mut Obs) -> Result<SimSum
         }
     }
     obs.evals(sim.evals.max(1));
-    Ok(SimSummary {
+    let deferred = sim.take_deferred();
+    Ok((SimSummary {
         sends: sim.sends,
         sends_with_path: sim.sends_with_path,
         sends_after_rejected: sim.sends_after_rejected,
@@ -760,7 +792,7 @@ pub fn run(w: &World, case: &Case, focus: Focus, obs: &mut Obs) -> Result<SimSum
         ended_idle: sim.ended && !sim.budget_exhausted,
         hot_loop: sim.hot_loop,
         budget_exhausted: sim.budget_exhausted,
-    })
+    }, deferred))
 }
 
 #[derive(Default, Debug, Clone)]
